@@ -3,6 +3,7 @@ package sim
 import (
 	"bytes"
 	"fmt"
+	"os"
 	"sort"
 
 	"perkeep.org/pkg/blob"
@@ -81,6 +82,12 @@ func (m *Model) Clone() *Model {
 // effect. faulted says an injected fault fired during the operation: then the
 // operation may fail and, if it was a mutation, its targets become Maybe; it
 // still may never return wrong data. The returned strings are violations.
+// StrictUnderFaults: a read into which a fault was injected may fail, but when
+// it reports success its answer must be complete, exactly as without the
+// fault: an error must never turn into a shorter listing or an "absent".
+// (VERIF_LENIENT_FAULTS=1 switches this off for comparison runs.)
+var StrictUnderFaults = os.Getenv("VERIF_LENIENT_FAULTS") == ""
+
 func (m *Model) Check(op Op, res Result, faulted bool) (viol []string) {
 	bad := func(format string, args ...any) {
 		viol = append(viol, fmt.Sprintf("%s: ", op.String())+fmt.Sprintf(format, args...))
@@ -248,7 +255,7 @@ func (m *Model) Check(op Op, res Result, faulted bool) (viol []string) {
 				m.State[k] = Present
 			}
 		}
-		if res.Err == nil && !faulted {
+		if res.Err == nil && (!faulted || StrictUnderFaults) {
 			for _, bi := range op.B {
 				k := m.Pool[bi].Ref.String()
 				if m.State[k] == Present && !seen[k] {
@@ -290,7 +297,7 @@ func (m *Model) Check(op Op, res Result, faulted bool) (viol []string) {
 		if op.Kind == "enum" && op.Limit > 0 && len(res.Enum) > op.Limit {
 			bad("enumerate returned %d > limit %d", len(res.Enum), op.Limit)
 		}
-		if res.Err == nil && !faulted {
+		if res.Err == nil && (!faulted || StrictUnderFaults) {
 			// exactness: the definite members after the cursor, in order,
 			// must appear; Maybe members may or may not.
 			var want []string
